@@ -403,12 +403,15 @@ func (g *genPkg) genFunc(fi *FuncInfo, specNames map[string]bool) error {
 			return "", nil, err
 		}
 		var decl, locals []string
+		var lpos token.Pos
+		switch l := fi.Loops[k-1].(type) {
+		case *ast.ForStmt:
+			lpos = l.Body.Pos()
+		case *ast.RangeStmt:
+			lpos = l.Body.Pos()
+		}
 		for _, n := range ids {
-			if known[n] || specNames[n] || types.Universe.Lookup(n) != nil || g.pkg.Types.Scope().Lookup(n) != nil ||
-				strings.HasPrefix(n, "gc") {
-				continue
-			}
-			if _, isImp := importName(g, n); isImp {
+			if known[n] || strings.HasPrefix(n, "gc") {
 				continue
 			}
 			if n == "rangeindex" {
@@ -416,19 +419,19 @@ func (g *genPkg) genFunc(fi *FuncInfo, specNames map[string]bool) error {
 				locals = append(locals, n)
 				continue
 			}
-			var lpos token.Pos
-			switch l := fi.Loops[k-1].(type) {
-			case *ast.ForStmt:
-				lpos = l.Body.Pos()
-			case *ast.RangeStmt:
-				lpos = l.Body.Pos()
+			// a local variable shadows package-level and predeclared names
+			if v := localVar(fi, n, lpos); v != nil {
+				decl = append(decl, n+" "+g.ts(v.Type()))
+				locals = append(locals, n)
+				continue
 			}
-			v := localVar(fi, n, lpos)
-			if v == nil {
-				return "", nil, fmt.Errorf("%s loop %d: identifier %q is neither a parameter, a package-level name nor a local variable", fc.Key(), k, n)
+			if specNames[n] || types.Universe.Lookup(n) != nil || g.pkg.Types.Scope().Lookup(n) != nil {
+				continue
 			}
-			decl = append(decl, n+" "+g.ts(v.Type()))
-			locals = append(locals, n)
+			if _, isImp := importName(g, n); isImp {
+				continue
+			}
+			return "", nil, fmt.Errorf("%s loop %d: identifier %q is neither a parameter, a package-level name nor a local variable", fc.Key(), k, n)
 		}
 		return strings.Join(decl, ", "), locals, nil
 	}
